@@ -18,7 +18,7 @@ RULE = (
     "individual's own terms (B) / the permutation was not the identity (D)"
 )
 REQUIRED = {"rel_B_terms": 60, "rel_B_sampler": 60, "rel_B_personalize": 40, "rel_C_terms": 40, "rel_D_terms": 40, "totals": 40, "rel_E": 2,
-            "others_terms_really_changed": 30, "cohorts_with_unsorted_ids": 8, "other_individual_with_absurd_value": 5}
+            "others_terms_really_changed": 30, "cohorts_with_unsorted_ids": 8, "other_individual_with_absurd_value": 5, "rel_B_reused_algorithm_object": 5}
 ASSUMPTIONS = [
     "B relations: bit-identity (two executions of the same code on the same shapes); C/D: 1e-6 relative + 1e-6 x largest per-individual term "
     "absolute (float32 accumulation order may differ with layout; a term near 0 is a cancelling sum of O(10) summands)",
@@ -258,6 +258,29 @@ def run_shard(spec, ctx):
             ctx.distinct(case["model"], "B", "personalize", name)
             if name != "scipy_minimize" and long_adaptive:
                 ctx.count("rel_B_personalize_adaptive_chains")
+            if name != "scipy_minimize" and (spec["k"] + i) % 3 == 0:
+                # an algorithm object that already served on ANOTHER cohort of the same size (cohort B: other values for the other
+                # individuals): what it then returns for this cohort is what a new object returns
+                try:
+                    from leaspy.algo import AlgorithmSettings, algorithm_factory
+
+                    def run_obj(first):
+                        a_ = algorithm_factory(AlgorithmSettings(name, seed=seed_p, progress_bar=False, n_iter=60, n_burn_in_iter=20, sampler_ind_params={
+                            "acceptation_history_length": 5, "mean_acceptation_rate_target_bounds": [0.2, 0.4], "adaptive_std_factor": 0.3}))
+                        with contextlib.redirect_stdout(io.StringIO()):
+                            if first is not None:
+                                a_.run(model, first)
+                            return a_.run(model, ds).to_pytorch()
+
+                    (i0, p0), (i1, p1) = run_obj(None), run_obj(dsB)
+                    ctx.count("rel_B_reused_algorithm_object")
+                    ctx.evaluated()
+                    if i0 != i1 or any(not sh.bit_same(p0[pn], p1[pn]) for pn in p0):
+                        viol(f"indep/personalize-depends-on-other-individuals/{name}",
+                             f"{name}: an algorithm object that was first run on another cohort (other individuals' values) returns other estimates for this cohort than a new object")
+                except Exception as e:
+                    ctx.count("reused_object_relation_skipped")
+                    ctx.note(f"reused_object_relation_skipped_{type(e).__name__}", str(e)[:160])
             if tpos == 0 and dsC is not None and name == "scipy_minimize":
                 try:
                     idxC, pC = perso(dsC, name)
